@@ -519,7 +519,12 @@ def g_constructors(ctx, rng, i):
             tr(g.Conic.from_tangent, tangent, g.Point(*a.tolist()), g.Point(*b.tolist()), g.Point(*c.tolist()), g.Point(*d.tolist()))
             if general(a, b, c, b + 2 * u):
                 tr(g.Conic.from_tangent, tangent, g.Point(*a.tolist()), g.Point(*b.tolist()), g.Point(*c.tolist()), g.Point(*(b + 2 * u).tolist()))
-        tr(g.Conic.from_foci, P[0], P[1], P[2])
+        # boundary point off both symmetry axes of the foci (on them one of the two confocal conics degenerates: not defined, cf. C13)
+        F1, F2, B = (np.asarray(p.normalized_array, dtype=float)[:2] for p in P[:3])
+        ax = F2 - F1
+        wv = B - (F1 + F2) / 2
+        if np.linalg.norm(ax) > 0.5 and abs(wv @ ax) > 1e-3 * np.linalg.norm(ax) and abs(wv[0] * ax[1] - wv[1] * ax[0]) > 1e-3 * np.linalg.norm(ax):
+            tr(g.Conic.from_foci, P[0], P[1], P[2])
         tr(g.Conic.from_crossratio, float(rng.integers(2, 6)) / 2, *P[:4])
         tr(_construct, ctx, g.Circle, P[0], float(rng.integers(1, 5)))
         tr(_construct, ctx, g.Ellipse, P[0], float(rng.integers(1, 5)), float(rng.integers(1, 5)))
